@@ -156,37 +156,22 @@ Definition copy_ctor (K : akind) (L : list param) (src : vec) (junk : mem) (nb :
       v_tbl := if tab then tbl_relocate (v_tbl src) (v_cap src) tbid else tbl0;
       v_last := v_last src |}, src1, ea ++ e1, if tab then S (S nb) else S nb).
 
-(* owning pointer copy assignment (allocator.hpp:101-126): new (bid, units, aid, fresh?) *)
-Definition aap_copy_assign (K : akind) (L : list param) (d src : vec) (nb : nat)
-  : option nat * Z * Z * bool * list ev * nat :=
-  if pocca K && negb (always_eq K) && negb (v_aid d =? v_aid src) then
-    (Some nb, v_units src, v_aid src, true,
-     dealloc_mem L d ++ [EAlloc (v_aid src) (SA L) (v_units src) nb], S nb)
-  else
-    let a := if pocca K then v_aid src else v_aid d in
-    if (v_units d <? v_units src) || (match v_bid d with None => true | Some _ => false end) then
-      (* the allocator is propagated BEFORE the old block is released (allocator.hpp:117-122);
-         this branch is only reached with equal allocators *)
-      (Some nb, v_units src, a, true,
-       (match v_bid d with Some b => [EDealloc a (SA L) (v_units d) b] | None => [] end)
-         ++ [EAlloc a (SA L) (v_units src) nb], S nb)
-    else (v_bid d, v_units d, a, false, [], nb).
-
-(* copy_assign (vector.hpp:529-538) *)
+(* copy_assign (vector.hpp): the new block and the new address table are allocated FIRST
+   (from the allocator the vector will have afterwards), filled from the source, and only then
+   are the old elements destroyed and the old table and block released *)
 Definition copy_assign (K : akind) (L : list param) (d src : vec) (junk : mem) (nb : nat)
   : vec * vec * list ev * nat :=
   let tab := has_varying L in
-  let '(d1, e1) := if all_dtriv L then (d, []) else destruct_range L d 0 (Z.to_nat (vsize L d)) in
-  let e2 := if tab then dealloc_tbl L d1 else [] in
-  let '(bid, u, a, fresh, e3, nb1) := aap_copy_assign K L d1 src nb in
-  let base := if fresh then junk else v_mem d1 in
-  let tbid := nb1 in
-  let e4 := if tab then [EAlloc a 8 (v_cap src) tbid] else [] in
-  let '(src1, m, e5) := insert_into false false L src (bidn bid) base in
-  ({| v_cap := v_cap src; v_bid := bid; v_units := u; v_aid := a; v_mem := m;
+  let a := if pocca K then v_aid src else v_aid d in
+  let bid := nb in let tbid := S nb in
+  let ea := EAlloc a (SA L) (v_units src) bid :: (if tab then [EAlloc a 8 (v_cap src) tbid] else []) in
+  let '(src1, m, e1) := insert_into false false L src bid junk in
+  let '(d1, e2) := if all_dtriv L then (d, []) else destruct_range L d 0 (Z.to_nat (vsize L d)) in
+  let e3 := (if tab then dealloc_tbl L d1 else []) ++ dealloc_mem L d1 in
+  ({| v_cap := v_cap src; v_bid := Some bid; v_units := v_units src; v_aid := a; v_mem := m;
       v_fixed := v_fixed src; v_count := v_count src; v_stride := v_stride src;
       v_tbl := if tab then tbl_relocate (v_tbl src) (v_cap src) tbid else tbl0;
-      v_last := v_last src |}, src1, e1 ++ e2 ++ e3 ++ e4 ++ e5, if tab then S nb1 else nb1).
+      v_last := v_last src |}, src1, ea ++ e1 ++ e2 ++ e3, if tab then S (S nb) else S nb).
 
 (* steal (vector.hpp:471-477) with the owning pointer's move assignment (allocator.hpp:128-138) *)
 Definition steal (K : akind) (L : list param) (d src : vec) : vec * vec * list ev :=
